@@ -21,7 +21,7 @@ RULE = ("random documents: 0-5 cells (thorough 0-8) + 0-2 Cell2CaPools, per cell
         "embedded+attribute, reference to a local / included / nested-included / undefined id}, 0-3 local definitions and "
         "0-3 included files (ids collide on purpose: same id locally and in files, twice in one list, same id for both "
         "kinds), hrefs plain / './' / 'sub/' / '../' / absolute / missing, two working directories, objects built by "
-        "constructors / read back from a file (parent_object_ set) / mixed; each case is run with overwrite=True and "
+        "constructors / read back from a file (parent_object_ set) / mixed / with aliased objects; each case is run with overwrite=True and "
         "overwrite=False. Non-trivial = at least two cells share one reference that resolves; distinct = distinct "
         "canonical (case, overwrite) descriptions. Second stream: NeuroMLXMLParser.parse on files with nested includes.")
 TRUST = [
@@ -30,7 +30,7 @@ TRUST = [
     "reading an included file is modelled as allocation of fresh objects from a template obtained with the same loader",
 ]
 ASSUMPTIONS = [
-    "the document is a tree: no object is reachable twice (c17_independent assumes doc.ids.Nodup; aliased inputs are not generated)",
+    "the document is a tree: no object is reachable twice (c17_independent assumes doc.ids.Nodup); documents in which a cell embeds the very object that is also a top-level definition are generated for the oracle and for the overwrite=True correspondence only",
     "parent_object_ of an object below a document is None or its container (what constructors and the XML reader produce); "
     "for overwrite=False on documents holding elements read from another document the parent references of the returned copy are not compared",
     "every <include> of the document names a readable NeuroML XML file, else the loader calls sys.exit() (modelled, theorem "
@@ -143,6 +143,14 @@ def build_input(case, root):
         p = os.path.join(root, "work", "input_doc.nml")
         w.NeuroMLWriter.write(doc, p)
         doc = L.read_neuroml2_file(p)
+    elif origin == "aliased":
+        # the same object in two places: a cell embeds the very object that is also a top-level definition
+        byid = {c.id: c for c in list(doc.cells) + list(doc.cell2_ca_poolses)}
+        for spec in case["doc"]["cells"]:
+            if spec.get("alias_m") and doc.morphology:
+                byid[spec["id"]].morphology = doc.morphology[0]
+            if spec.get("alias_b") and doc.biophysical_properties:
+                byid[spec["id"]].biophysical_properties = doc.biophysical_properties[-1]
     elif origin == "mixed":
         # constructor-built document whose top-level definitions were read from another document
         p = os.path.join(root, "work", "donor_doc.nml")
@@ -583,7 +591,8 @@ def mutate(e):
     if hasattr(e, "segments"):
         e.segments.append(n.Segment(id=99, name="extra"))
         if len(e.segments) > 1:
-            e.segments[0].proximal.x = 12345.0
+            if e.segments[0].proximal is not None:
+                e.segments[0].proximal.x = 12345.0
             e.segments[0].name = "renamed"
     if hasattr(e, "membrane_properties") and e.membrane_properties is not None:
         e.membrane_properties.channel_densities.append(n.ChannelDensity(id="extra"))
@@ -598,6 +607,9 @@ def model_line(pre_c, n, overwrite, tmpl):
 
 def compare(ctx, case, overwrite, R, table_pre, n, mout, payload):
     """correspondence: outcome, state of the input afterwards, returned document - identities by first-visit numbering"""
+    if case.get("origin") == "aliased" and not overwrite:
+        ctx.count("corr-skipped:aliased+overwrite=False (deepcopy memo keeps aliases; the model is over trees)")
+        return
     ctx.corr_evals += 1
     mixed_copy = (not overwrite) and case.get("origin") == "mixed"
     real = {"res": R["res"], "arg": R["arg"] if R["res"] == "KeyError" else ""}
@@ -918,6 +930,13 @@ def gen_case(rng, big=False, parse=False):
             c["b_attr"], c["b_elem"] = None, None
         doc["cells"].append(c)
     origin = rng.choice(["built", "built", "loaded", "loaded", "mixed"])
+    if not parse and rng.random() < 0.08:
+        origin = "aliased"
+        for c in doc["cells"]:
+            if c["m_elem"] is not None and rng.random() < 0.7:
+                c["alias_m"] = True
+            if c["b_elem"] is not None and rng.random() < 0.7:
+                c["alias_b"] = True
     return {"files": files, "doc": doc, "cwd": cwd, "origin": origin}
 
 
@@ -964,6 +983,10 @@ CORPUS = [
                {"path": "other/nested1.nml", "morphs": [E("m", "m1", "nested")], "bios": [], "includes": []}],
      "cwd": ".", "origin": "loaded",
      "doc": {"includes": ["inc0.nml"], "morphs": [], "bios": [], "cells": [C("c0", m_attr="m1")]}},
+    # aliasing: c1 embeds the very object that is doc.morphology[0], c0 and c2 refer to it by id
+    {"files": [], "cwd": ".", "origin": "aliased",
+     "doc": {"includes": [], "morphs": [E("m", "m1", "local")], "bios": [],
+             "cells": [C("c0", m_attr="m1"), dict(C("c1", m_elem=E("m", "m1", "local")), alias_m=True), C("c2", m_attr="m1")]}},
     # KNOWN FINDING C17:cell2capools-not-resolved
     {"files": [], "cwd": ".", "origin": "built",
      "doc": {"includes": [], "morphs": [E("m", "m1", "local")], "bios": [],
@@ -985,13 +1008,13 @@ PARSE_CORPUS = [
 
 def run(ctx):
     big = ctx.tier == "thorough"
-    n = ctx.n(300, 2500) * ctx.search_mult
+    n = ctx.n(800, 2500) * ctx.search_mult
     cases = [json.loads(json.dumps(c)) for c in CORPUS]
     for _ in range(n):
         cases.append(gen_case(ctx.rng, big=big))
     for i in range(0, len(cases), 60):
         run_cases(ctx, cases[i:i + 60])
-    pn = ctx.n(60, 400) * ctx.search_mult
+    pn = ctx.n(120, 400) * ctx.search_mult
     pcases = [json.loads(json.dumps(c)) for c in PARSE_CORPUS]
     for _ in range(pn):
         pcases.append(gen_case(ctx.rng, big=False, parse=True))
@@ -1002,9 +1025,12 @@ def run(ctx):
 def replay(ctx, payload):
     c = payload.get("case", payload)
     case = c["case"] if isinstance(c, dict) and "case" in c else c
-    if isinstance(c, dict) and c.get("stream") == "parse":
-        run_parse_cases(ctx, [case])
-    else:
-        run_cases(ctx, [case])
+    import contextlib
+    import io
+    with contextlib.redirect_stdout(io.StringIO()), contextlib.redirect_stderr(io.StringIO()):   # the library prints
+        if isinstance(c, dict) and c.get("stream") == "parse":
+            run_parse_cases(ctx, [case])
+        else:
+            run_cases(ctx, [case])
     return {"fails": bool(ctx.failures or ctx.corr_disagreements), "failures": [{"key": f["key"], "what": f["what"]} for f in ctx.failures],
             "disagreements": ctx.corr_disagreements[:3]}
